@@ -115,6 +115,16 @@ func (w *World) inlineRound(overlay map[string][]byte) (map[string][]byte, []str
 			}
 			s := classifySite(cs.Caller, cs.Call)
 			if s == nil {
+				// a one-expression helper can be substituted wherever it is called (the left-hand side of a store,
+				// a range operand, a condition …)
+				if st := enclosingStmt(cs.Caller.Decl.Body, cs.Call); st != nil {
+					es := &inlineSite{caller: cs.Caller, call: cs.Call, kind: siteHoist, stmt: st}
+					if _, isExpr := w.exprHelperText(h, es, overlay); isExpr {
+						s = es
+					}
+				}
+			}
+			if s == nil {
 				ok = false
 				notes = append(notes, fmt.Sprintf("helper %s: call at %s is not in a substitutable position", h.Name, w.Pos(cs.Call.Pos())))
 				break
@@ -490,6 +500,9 @@ func simpleArg(e ast.Expr) bool {
 		return simpleArg(x.X)
 	case *ast.StarExpr:
 		return simpleArg(x.X)
+	case *ast.UnaryExpr:
+		// the address of a variable is the same value wherever it is written
+		return x.Op == token.AND && simpleArg(x.X)
 	}
 	return false
 }
@@ -754,9 +767,16 @@ func (w *World) inlineText(h *Func, s *inlineSite, serial int, overlay map[strin
 			if _, isSel := ast.Unparen(arg).(*ast.StarExpr); isSel {
 				argText = "(" + argText + ")"
 			}
+			if _, isAddr := ast.Unparen(arg).(*ast.UnaryExpr); isAddr {
+				if assigned[pobj] {
+					goto bind // `&x` cannot be assigned to
+				}
+				argText = "(" + argText + ")"
+			}
 			subst[pobj] = argText
 			return
 		}
+	bind:
 		name := pid.Name + suffix
 		subst[pobj] = name
 		if at != nil && types.Identical(at, pobj.Type()) {
@@ -1541,6 +1561,9 @@ func (w *World) exprHelperText(h *Func, s *inlineSite, overlay map[string][]byte
 		if _, isStar := ast.Unparen(arg).(*ast.StarExpr); isStar {
 			t = "(" + t + ")"
 		}
+		if _, isAddr := ast.Unparen(arg).(*ast.UnaryExpr); isAddr {
+			t = "(" + t + ")"
+		}
 		subst[pobj] = t
 		return true
 	}
@@ -1592,7 +1615,28 @@ func (w *World) exprHelperText(h *Func, s *inlineSite, overlay map[string][]byte
 	if hasLit {
 		return "", false
 	}
-	return "(" + render(hsrc, htf, info, ret.Results[0], subst, nil) + ")", true
+	txt := render(hsrc, htf, info, ret.Results[0], subst, nil)
+	switch ast.Unparen(ret.Results[0]).(type) {
+	case *ast.Ident, *ast.SelectorExpr, *ast.CallExpr, *ast.IndexExpr, *ast.TypeAssertExpr, *ast.BasicLit, *ast.SliceExpr:
+		// a primary expression binds tighter than anything around the call
+		needParen := false
+		for _, v := range subst {
+			if strings.HasPrefix(v, "(&") || strings.HasPrefix(v, "(*") {
+				needParen = false // already parenthesised where it matters
+			}
+		}
+		if !needParen {
+			return txt, true
+		}
+	}
+	if _, isLit := ast.Unparen(ret.Results[0]).(*ast.CompositeLit); isLit {
+		// a composite literal needs parentheses only in the header of if/for/switch
+		switch s.stmt.(type) {
+		case *ast.AssignStmt, *ast.ReturnStmt, *ast.DeclStmt, *ast.ExprStmt:
+			return txt, true
+		}
+	}
+	return "(" + txt + ")", true
 }
 
 // ---- opacity --------------------------------------------------------------------------------------------
@@ -1768,7 +1812,6 @@ func (w *World) inertFunc(f *Func) bool {
 	return ok
 }
 
-
 // unshadowRound renames caller locals that would capture a package-level name used by a helper about to be substituted.
 func (w *World) unshadowRound(layer []*Func, sites map[*Func][]*inlineSite, overlay map[string][]byte) (map[string][]byte, []string) {
 	edits := map[string][]textEdit{}
@@ -1850,4 +1893,26 @@ func (w *World) unshadowRound(layer []*Func, sites map[*Func][]*inlineSite, over
 		out[fname] = b
 	}
 	return out, what
+}
+
+func enclosingStmt(root ast.Node, target ast.Node) ast.Stmt {
+	var found ast.Stmt
+	var stack []ast.Node
+	ast.Inspect(root, func(x ast.Node) bool {
+		if x == nil {
+			stack = stack[:len(stack)-1]
+			return true
+		}
+		if x == target {
+			for i := len(stack) - 1; i >= 0; i-- {
+				if st, ok := stack[i].(ast.Stmt); ok {
+					found = st
+					break
+				}
+			}
+		}
+		stack = append(stack, x)
+		return found == nil
+	})
+	return found
 }
